@@ -10,13 +10,21 @@ package core
 //@   safety
 //@   requires URL != nil
 
+// A host is an IP address when net.ParseIP accepts it OR netip.ParseAddr does (an IPv6 literal with a zone: fe80::1%eth0).
+//@ func net/netip.ParseAddr
+//@   trusted
+//@   pure
+//@ func isIPAddress
+//@   prop C20
+//@   pure
+//@   ensures [plain-and-zoned-literals] result <==> (net.ParseIP(host) != nil || isNilIface(netip.ParseAddr(host).1))
 //@ func ParsePublicURLWithScheme
 //@   prop C20
 //@   modifies nothing
 //@   ensures [value-iff-ok] isNilIface(result.1) <==> result.0 != nil
 //@   ensures [scheme-host] isNilIface(result.1) ==> result.0.Scheme != "" && result.0.Hostname() != ""
 //@   ensures [scheme-allowed] isNilIface(result.1) && len(allowedSchemes) > 0 ==> slices.Contains(allowedSchemes, result.0.Scheme)
-//@   ensures [no-ip] isNilIface(result.1) && !allowReserved ==> net.ParseIP(result.0.Hostname()) == nil
+//@   ensures [no-ip] isNilIface(result.1) && !allowReserved ==> !isIPAddress(result.0.Hostname())
 //@   ensures [not-reserved] isNilIface(result.1) && !allowReserved ==> !isReserved(result.0)
 
 //@ func ParsePublicURL
